@@ -18,6 +18,7 @@ HELPERS = {"_cbor_safe_to_add": "the wrap test itself", "_cbor_safe_to_multiply"
 WINDOW_FUNCS = {"cbor_serialize_bytestring", "cbor_serialize_string", "cbor_serialize_array", "cbor_serialize_map",
                 "cbor_serialize_tag"}
 SIZE_MAX = (1 << 64) - 1
+CLAIM = "claim_bytes"     # the decoder's input-bookkeeping routine, located by decoder_rules.claim_helper in run()
 
 
 def tainted(t):
@@ -91,9 +92,11 @@ def run(ctx, chk):
         classes[(f.name, i.id)] = cls
     # claim_bytes in the context of the decoder
     pr = {}
-    if "claim_bytes" in nontrivial_fns:
-        pr.update(analyse_paths("cbor_stream_decode", inline={"claim_bytes"}))
-        nontrivial_fns.discard("claim_bytes")
+    global CLAIM
+    CLAIM = DR.claim_helper(prog)
+    if CLAIM in nontrivial_fns:
+        pr.update(analyse_paths("cbor_stream_decode", inline={CLAIM}))
+        nontrivial_fns.discard(CLAIM)
     # unit-internal helpers are audited in the context of the functions they are inlined into (their operands are the
     # caller's values); only helpers without such a context are audited on their own
     in_context = set()
@@ -157,7 +160,9 @@ def run(ctx, chk):
         chk.ob("C20.anchors", "idiom %s: %d instruction(s)" % (k, v), True, "src/", key="count:" + k, nontrivial=False)
 
     # ---- signalling add
-    ss = prog.fn("cbor_serialized_size")
+    import serializer_rules as _SR
+    cache = O.PathCache(prog, eff)
+    ss, _size_names = _SR.size_core(prog, eff, cache)
     for i in ss.all_insts():
         if i.op in ("add", "mul") and i.type == "i64":
             a, b = i.operands
@@ -166,7 +171,6 @@ def run(ctx, chk):
             ok = not both_var or induction
             chk.ob("C20.signalling", "cbor_serialized_size %s at line %d" % (i.op, i.line), ok, i.loc(), fn=ss.name,
                    key="ss:%s:%d" % (i.op, _ordinal(ss, i)), detail="" if ok else "two sizes are combined with a raw %s" % i.op)
-    cache = O.PathCache(prog, eff)
     # ... and what it returns is a constant, a header size or the result of the signalling add - also when the last step
     # is delegated to a unit-internal helper (inlined): a raw `size + 1` would turn the overflow signal 0 into 1
     for k, pa in enumerate(cache.get(ss.name, inline_static=True)):
@@ -191,83 +195,8 @@ def run(ctx, chk):
     chk.floor("C20.signalling", "signalling adds in cbor_serialized_size", nss, 4)
 
     # ---- the guard helpers mean what their callers take them to mean
-    chk.rule("C20.guard-semantics", "_cbor_safe_to_add answers true only on a path that establishes, on the full-width parameters "
-                                    "themselves, that their sum did not wrap (sum >= operand, or the 64-bit checked-add intrinsic); "
-                                    "_cbor_safe_to_multiply answers true only where an operand is <= 1, the bit lengths of the two "
-                                    "parameters add up to at most 64, or the 64-bit checked-multiply intrinsic reports no overflow")
-    A0, A1 = ("arg", 0), ("arg", 1)
-    SUM = (("op", "add", "i64", A0, A1), ("op", "add", "i64", A1, A0))
-
-    def strip_bool(t):
-        neg = False
-        while isinstance(t, tuple) and t[0] in ("cast", "not"):
-            if t[0] == "not":
-                neg = not neg
-                t = t[1]
-            else:
-                t = t[3]
-        return t, neg
-
-    def no_wrap_add(t, truth, pa):
-        """does `t == truth` imply that arg0 + arg1 does not wrap?"""
-        t, neg = strip_bool(t)
-        truth = truth != neg
-        if isinstance(t, tuple) and t[0] == "icmp" and len(t) == 4:
-            l, r = t[2], t[3]
-            if l in SUM and r in (A0, A1):
-                return (t[1] == "uge" and truth) or (t[1] == "ult" and not truth)
-            if r in SUM and l in (A0, A1):
-                return (t[1] == "ule" and truth) or (t[1] == "ugt" and not truth)
-        if isinstance(t, tuple) and t[0] == "xv" and t[2] == (1,) and isinstance(t[1], tuple) and t[1][0] == "call":
-            ev = [e for e in pa.events if e.kind == "call" and e.res == t[1]]
-            if ev and t[1][1] == "llvm.uadd.with.overflow.i64" and set(ev[0].args) == {A0, A1}:
-                return not truth      # overflow bit false
-        return False
-
-    def no_wrap_mul(t, truth, pa):
-        t, neg = strip_bool(t)
-        truth = truth != neg
-        if isinstance(t, tuple) and t[0] == "icmp" and len(t) == 4:
-            # an operand is 0 or 1
-            for x in (A0, A1):
-                if t[2] == x and P.is_const(t[3]):
-                    c = t[3][1]
-                    if (t[1] == "ule" and c <= 1 and truth) or (t[1] == "ult" and c <= 2 and truth) or (t[1] == "eq" and c in (0, 1) and truth) or \
-                            (t[1] == "ugt" and c <= 1 and not truth) or (t[1] == "uge" and c <= 2 and not truth):
-                        return True
-            # bit lengths add up to at most the width
-            l, r = t[2], t[3]
-            if isinstance(l, tuple) and l[0] == "op" and l[1] == "add" and P.is_const(r):
-                hb = [x for x in (l[3], l[4]) if isinstance(x, tuple) and x[0] == "call" and x[1] == "_cbor_highest_bit"]
-                if len(hb) == 2:
-                    args_ = set()
-                    for h_ in hb:
-                        ev = [e for e in pa.events if e.kind == "call" and e.res == h_]
-                        if ev:
-                            args_.add(ev[0].args[0])
-                    if args_ == {A0, A1}:
-                        return (t[1] == "ule" and r[1] <= 64 and truth) or (t[1] == "ult" and r[1] <= 65 and truth) or \
-                               (t[1] == "ugt" and r[1] <= 64 and not truth) or (t[1] == "uge" and r[1] <= 65 and not truth)
-        if isinstance(t, tuple) and t[0] == "xv" and t[2] == (1,) and isinstance(t[1], tuple) and t[1][0] == "call":
-            ev = [e for e in pa.events if e.kind == "call" and e.res == t[1]]
-            if ev and t[1][1] == "llvm.umul.with.overflow.i64" and set(ev[0].args) == {A0, A1}:
-                return not truth
-        return False
-    ngs = 0
-    for gname, witness in (("_cbor_safe_to_add", no_wrap_add), ("_cbor_safe_to_multiply", no_wrap_mul)):
-        gf = prog.fn(gname)
-        for k, pa in enumerate(cache.get(gname)):
-            r = pa.ret
-            if r == ("c", 0):
-                continue
-            ngs += 1
-            ok = any(witness(t, truth, pa) for t, truth, _ in pa.facts) or (not is_const(r) and witness(r, True, pa))
-            chk.ob("C20.guard-semantics", "%s path %d: 'safe' is answered only with a no-wrap witness on the parameters" % (gname, k), ok,
-                   "%s:%d" % (gf.file, gf.line), fn=gname, key="guardsem:%s:%d" % (gname, k),
-                   detail="" if ok else "returns %s on a path whose facts %s do not establish that the full-width operation cannot wrap (e.g. a "
-                                        "narrower intrinsic, a test on truncated operands)" % (DR.fmt_term(r), [DR.fmt_term(t) for t, _tr, _ in pa.facts][:4]),
-                   path=pa.block_lines() if not ok else None)
-    chk.floor("C20.guard-semantics", "answering paths of the two guard helpers", ngs, 3)
+    import guard_rules
+    guard_rules.check_guard_semantics(chk, prog, eff, cache, "C20.guard-semantics")
 
     # ---- allocation sizes
     nal = 0
@@ -282,6 +211,11 @@ def run(ctx, chk):
                 chk.ob("C20.alloc-size", "%s: %s(%s)" % (f.name, e.callee, DR.fmt_term(sz)), ok, e.ins.loc(), fn=f.name,
                        key="%s:%s:%d" % (f.name, e.callee, e.ins.id), detail=why)
     chk.floor("C20.alloc-size", "allocator requests on paths", nal, 40)
+    chk.rule("C20.narrowing", "no 64-bit quantity is converted to a narrower integer type except to take one byte of it for the "
+             "output buffer or below a range test that makes the conversion lossless (a narrowing conversion is a wrap of the size arithmetic; a count kept in 32 bits is "
+             "tracked modulo 2^32)")
+    import rules as _rn
+    _rn.check_narrowing(chk, "C20.narrowing", prog, eff=eff)
     chk.exhaustive = True
 
 
@@ -501,7 +435,7 @@ def classify_event(prog, pa, idx, e, root=None, failsig=()):
                 if truth_all.get(("icmp", "eq", ("op", "udiv", "i64", s_, x), y)) is not None:
                     return True, "4-post-check", ""
     # 8: window / remainder arithmetic with proven accumulation
-    if fn == "claim_bytes" and op == "sub":
+    if fn == CLAIM and op == "sub":
         # provided - read: read is 0 or a sum of amounts each claimed under idiom 3
         r = b
         if r == ("c", 0) or all(isinstance(x, tuple) for x in [r]):
@@ -550,7 +484,7 @@ def _read_is_claimed_sum(pa, idx, r):
     if r == ("c", 0) or is_const(r):
         return True
     for pe in pa.events[:idx]:
-        if pe.kind == "arith" and pe.fn.name == "claim_bytes" and pe.callee == "add":
+        if pe.kind == "arith" and pe.fn.name == CLAIM and pe.callee == "add":
             s1 = ("op", "add", "i64", pe.args[0], pe.args[1])
             s2 = ("op", "add", "i64", pe.args[1], pe.args[0])
             if r in (s1, s2):
